@@ -170,6 +170,19 @@ def rand_case(rng, idx):
         missing = rng.choice(['nope', 'nope.less', 'sub/nope', '../nope.less'])
         root.items.insert(rng.randrange(len(root.items) + 1), ('missing', '@import "%s";' % missing, missing))
         kind = 'missing'
+    if kind == 'plain' and rng.random() < 0.08:
+        # something that does not parse, in the root or in an imported file: both ways of compiling must end in a CompilationError
+        nodes = [root]
+        stack = [root]
+        while stack:
+            nd = stack.pop()
+            for it in nd.items:
+                if it[0] == 'import' and it[1] not in nodes:
+                    nodes.append(it[1])
+                    stack.append(it[1])
+        tgt = rng.choice(nodes)
+        tgt.items.insert(rng.randrange(len(tgt.items) + 1), ('unit', rng.choice(['.bad{top:1px', 'top:1px;', '.bad{top:}', '}', '.bad{width:(1px}'])))
+        kind = 'broken'
     root.items.insert(0, ('unit', DEFAULTS.strip()))
     files, inlined, model_files = {}, {}, {}
     pasted = render_tree(rng, root, files, inlined, model_files)
@@ -247,7 +260,7 @@ def run(tier):
         build.ok = False
         build.log += '\nDRIVER: %r' % e
     model_jobs, model_idx = [], []
-    dist = {'plain': 0, 'foreign': 0, 'block': 0, 'missing': 0, 'files_total': 0, 'max_depth': 0, 'errors_both': 0}
+    dist = {'plain': 0, 'foreign': 0, 'block': 0, 'missing': 0, 'broken': 0, 'files_total': 0, 'max_depth': 0, 'errors_both': 0}
     problems = 0
     disagreements = []
     for i, (case, (split, pasted)) in enumerate(zip(cases, res)):
@@ -263,6 +276,9 @@ def run(tier):
                 bad = 'missing file %r was ignored: output %r' % (case['missing'], split[1][:200])
             elif 'file not found' not in split[2] or os.path.basename(case['missing']).replace('.less', '') not in split[2]:
                 bad = 'missing file %r not named in the error: %r' % (case['missing'], split[2])
+        elif case['kind'] == 'broken':
+            if pasted[0] != split[0]:
+                bad = 'a unit that does not parse: split tree gives %r, pasted text gives %r' % (split[:3], pasted[:3])
         elif norm_err(split) != norm_err(pasted):
             bad = 'split tree gives %r, pasting the files in place gives %r' % (split[1:3] if split[0] != 'ok' else split[1], pasted[1:3] if pasted[0] != 'ok' else pasted[1])
         if split[0] == 'err' and pasted[0] == 'err':
@@ -279,7 +295,7 @@ def run(tier):
             if problems > 5:
                 break
             continue
-        if answers[i] is not None and not case['missing']:
+        if answers[i] is not None and not case['missing'] and case['kind'] != 'broken':
             try:
                 mj = json.loads(answers[i])
             except Exception:
